@@ -182,6 +182,37 @@ static void hm_case(uint64_t idx, void *ctx)
     spif_mbuff_del(a); spif_mbuff_del(b);
     mc_nontrivial();
 }
+/* ---- containers whose elements compare equal without being equal (pairs with one key and different values): a copy holds them in the original's order */
+static void eq_desc(uint64_t idx, void *ctx, char *b, size_t n) { static const char *fam[3] = { "array", "linked_list", "dlinked_list" }; (void) ctx; snprintf(b, n, "%s %s of the pairs (k,1) (k,2) (k,3)%s: dup, element order of the copy", fam[idx % 3], (idx / 3) % 2 ? "vector" : "list", idx / 6 ? " after removing and re-adding (k,2)" : ""); }
+static void eq_order(spif_obj_t c, int vector, char *b, size_t n)
+{
+    int cnt = vector ? (int) SPIF_VECTOR_COUNT(c) : (int) SPIF_LIST_COUNT(c); spif_obj_t *a = cnt ? (vector ? SPIF_VECTOR_TO_ARRAY(c) : SPIF_LIST_TO_ARRAY(c)) : NULL; size_t k = 0; b[0] = 0;
+    for (int i = 0; a && i < cnt && k + 8 < n; i++) k += (size_t) snprintf(b + k, n - k, "%s ", a[i] && SPIF_OBJ_IS_OBJPAIR(a[i]) ? stext(SPIF_OBJPAIR(a[i])->value) : "?");
+    if (a) FREE(a);
+}
+static void eq_case(uint64_t idx, void *ctx)
+{
+    (void) ctx; g_family = (int) (idx % 3); int vector = (int) ((idx / 3) % 2), churn = (int) (idx / 6);
+    const char *shape = vector ? "vector of equal-comparing elements" : "list of equal-comparing elements"; mc_set_shape(shape);
+    spif_obj_t c = new_container(vector ? KIND_VECTOR : KIND_LIST);
+    for (int v = 1; v <= 3; v++) { char t[2] = { (char) ('0' + v), 0 }; spif_obj_t k = S_("k"), val = S_(t); spif_obj_t p = SPIF_OBJ(spif_objpair_new_from_both(k, val)); SPIF_OBJ_DEL(k); SPIF_OBJ_DEL(val);
+        if (vector) SPIF_VECTOR_INSERT(c, p); else SPIF_LIST_APPEND(c, p); }
+    if (churn) { spif_obj_t k = S_("k"), val = S_("2"), q = SPIF_OBJ(spif_objpair_new_from_both(k, val)); SPIF_OBJ_DEL(k); SPIF_OBJ_DEL(val);
+        spif_obj_t r = vector ? SPIF_VECTOR_REMOVE(c, q) : SPIF_LIST_REMOVE(c, q); if (r) { if (vector) SPIF_VECTOR_INSERT(c, r); else SPIF_LIST_APPEND(c, r); } SPIF_OBJ_DEL(q); }
+    char before[64], copy[64], after[64]; eq_order(c, vector, before, sizeof before);
+    spif_obj_t d = SPIF_OBJ_DUP(c);
+    if (!d || d == c) FAIL(vector ? "vector.dup" : "list.dup", "model:return", shape, "dup returned %s", d ? "self" : "NULL");
+    else {
+        eq_order(d, vector, copy, sizeof copy);
+        if (strcmp(before, copy)) FAIL(vector ? "vector.dup" : "list.dup", "model:value", shape, "the copy holds the values in the order {%s}, the original {%s}", copy, before);
+        SPIF_OBJ_DEL(d);
+        eq_order(c, vector, after, sizeof after);
+        if (strcmp(before, after)) FAIL(vector ? "vector.dup" : "list.dup", "model:original-changed", shape, "after deleting the copy the original reads {%s}, before {%s}", after, before);
+    }
+    SPIF_OBJ_DEL(c);
+    mc_nontrivial();
+    mc_outcome(mc_hash_str(before) + idx);
+}
 int main(int argc, char **argv)
 {
     mc_init("C05", argc, argv);
@@ -194,5 +225,6 @@ int main(int argc, char **argv)
     mc_e2_level("dup", 1, NDC, dup_case, dup_desc, NULL);
     mc_e2_level("comp", 1, NCC, cmp_case, cmp_desc, NULL);
     mc_e2_level("obj_identity", 1, (uint64_t) NADDR * NADDR, id_case, id_desc, NULL);
+    mc_e2_level("equal_comparing_elements", 3, 12, eq_case, eq_desc, NULL);
     return mc_finish();
 }
